@@ -12,7 +12,7 @@ for s in $IDS; do
   res=""
   for c in $checks; do
     out=$(/verif/check $c quick 2>&1)
-    n=$(echo "$out" | grep -c "^VIOLATION")
+    n=$(echo "$out" | grep -a -c "^VIOLATION")
     res="$res $c:violations=$n"
   done
   git checkout -- .
